@@ -182,12 +182,21 @@ def run(repo: Repo, rep: Report, tier: str) -> None:
                             rep.fail("action-effects", fq, f"source={vals.get('source')!r}", f"{name}: A-ABORT source must be {ab['default_source']} (service-user) when no request primitive is queued", mod=mod, node=call)
             # branch condition
             if name == "AE-6":
-                pol = _branch_polarity(pe.conds, r"protocol_version")
-                rep.need(pol is not None, f"{fq}: protocol-version test not recognised on a path")
-                want = "Sta13" if pol else "Sta3"
-                if pe.ret != want:
-                    ok = False
-                    rep.fail("action-next", fq, f"return {pe.ret!r}", f"AE-6: protocol version {'unsupported' if pol else 'supported'} must lead to {want}", mod=mod, node=fn)
+                ver_tests = [(t, taken) for t, taken in pe.cond_nodes if "protocol_version" in norm(t)]
+                rep.need(len(ver_tests) == 1, f"{fq}: protocol-version test not found on a path")
+                t, taken = ver_tests[0]
+                rep.need(isinstance(t, ast.Compare) and len(t.ops) == 1 and "protocol_version" in norm(t.left) and isinstance(t.comparators[0], ast.Constant) and isinstance(t.comparators[0].value, int), f"{fq}: protocol-version test shape: {norm(t)}")
+                import operator as _o
+                opf = {ast.Eq: _o.eq, ast.NotEq: _o.ne, ast.Lt: _o.lt, ast.LtE: _o.le, ast.Gt: _o.gt, ast.GtE: _o.ge}.get(type(t.ops[0]))
+                rep.need(opf is not None, f"{fq}: protocol-version operator not modelled")
+                kk = t.comparators[0].value
+                for v in (0, 1, 2, 3, 0x8001, 0xFFFF):
+                    if opf(v, kk) != taken:
+                        continue
+                    want = "Sta3" if v == 1 else "Sta13"
+                    if pe.ret != want:
+                        ok = False
+                        rep.fail("action-next", fq, f"{norm(t)} is {taken} for version {v} -> {pe.ret}", f"AE-6: an A-ASSOCIATE-RQ with protocol version 0x{v:04X} must lead to {want} ({'only version 1 is supported' if v != 1 else 'version 1 is supported'}), this path returns {pe.ret}", mod=mod, node=t)
             if name == "AR-8":
                 pol = _branch_polarity(pe.conds, r"is_requestor")
                 rep.need(pol is not None, f"{fq}: requestor test not recognised on a path")
@@ -212,7 +221,6 @@ def run(repo: Repo, rep: Report, tier: str) -> None:
     rep.sample({"action": "AE-6", "paths": [[effect_tag(e) for e in p.effects if effect_tag(e).startswith(PROTOCOL)] + [p.ret] for p in am.paths(am.action_func("AE-6")) if not p.raised]})
 
     # AE-6's protocol-version compare constant
-    _check_ae6_const(rep, am)
     # AA-3: A-ABORT vs A-P-ABORT indication chosen by the PDU's source
     _check_abort_to_primitive(repo, rep)
 
